@@ -3,6 +3,7 @@ import Cutplace.Proofs.RangeLemmas
 import Cutplace.Spec.Fields
 import Cutplace.Proofs.LengthRange
 import Cutplace.Proofs.DateTimeLemmas
+import Cutplace.Proofs.DateTimeComplete
 /-
 C02  Each field type accepts exactly the values its rule describes.
 
@@ -300,5 +301,29 @@ example :
     let fmt : List FmtTok := [.day, .lit '.', .month, .lit '.', .year4]
     strptime fmt "29.02.2024".toList = some (2024, 2, 29, 0, 0, 0) ∧ strptime fmt "29.02.2023".toList = none ∧
       strptime fmt "31.04.2024".toList = none := by decide +kernel
+
+/-- **DateTime accepts every real calendar date written in the layout of the rule.**  For every format over the
+directives, any literal characters (digits included) and no white space that names day, month and the four-digit year,
+and every real date (year 1..9999) and time of day: the text that writes day, month, hour, minute and second with two
+digits and the year with four is accepted, whatever CPython's alternation order and back-tracking try first, and the
+returned tuple is the date as written (time fields the format does not name are 0). -/
+theorem C02_datetime_complete (fmt : List FmtTok) (c : Civil) (hr : c.InRange) (hn : NoSpace fmt)
+    (hd : .day ∈ fmt) (hm : .month ∈ fmt) (hy : .year4 ∈ fmt) (hy2 : .year2 ∉ fmt)
+    (hy1 : 1 ≤ c.y) (hdim : c.d ≤ daysInMonth c.y c.mo) :
+    strptime fmt (renderFmt fmt c) = some (c.y, c.mo, c.d, (if .hour ∈ fmt then c.h else 0),
+      (if .minute ∈ fmt then c.mi else 0), (if .second ∈ fmt then c.s else 0)) :=
+  strptime_complete fmt c hr hn hd hm hy hy2 hy1 hdim
+
+/-- the match consumes exactly what the layout writes, whatever follows (so a longer cell is "unconverted data") -/
+theorem C02_datetime_match_exact (fmt : List FmtTok) (c : Civil) (hr : c.InRange) (hn : NoSpace fmt) (tail : Str) (f : Fields) :
+    matchToks fmt (renderFmt fmt c ++ tail) f = some (fieldsOf fmt c f, tail) :=
+  matchToks_render fmt c hr hn tail f
+
+/-- non-vacuity: 2024-02-29 23:59 under `YYYY-MM-DD hh:mm` written without blank (`T` as separator) -/
+example :
+    let fmt : List FmtTok := [.year4, .lit '-', .month, .lit '-', .day, .lit 'T', .hour, .lit ':', .minute]
+    let c : Civil := ⟨2024, 2, 29, 23, 59, 0⟩
+    c.InRange ∧ NoSpace fmt ∧ c.d ≤ daysInMonth c.y c.mo ∧ renderFmt fmt c = "2024-02-29T23:59".toList := by
+  refine ⟨⟨by decide, by decide, by decide, by decide, by decide, by decide⟩, by unfold NoSpace; decide, by decide, by decide +kernel⟩
 
 end Cutplace.Props
